@@ -31,9 +31,6 @@ def valid_behaviour(b, http):
     if kind == "remoteerr":
         if not plain_text(b.get("msg")):
             return False
-        # D-C15-2 (notes/C15.md): this remote error text makes lmd POST the batch again, up to three deliveries
-        if b["msg"].startswith("ERROR: broken pipe.") and not os.environ.get("VERIF_C15_BROKENPIPE"):
-            return False
     return True
 
 
@@ -112,15 +109,15 @@ PROP = Prop(
         "modelled, not verified: goroutine scheduling inside ClientConnection.SendCommands (which of several "
         "failing backends is reported: any), the 1s polls of SendCommandsWithRetry and the 9.5s PeerCommandTimeout "
         "(driven by scripted status changes), the EPIPE/ECONNRESET re-send loop of "
-        "getSocketQueryResponseWithTemporaryRetries, the 'ERROR: broken pipe.' re-POST loop of HTTPQueryWithRetries (D-C15-2), "
+        "getSocketQueryResponseWithTemporaryRetries, "
         "https/proxies/several sources of an http backend, cluster forwarding of commands",
     ],
     assumptions=[
-        "clients do not pipeline: a GET is the last request of a write and the next write follows its response "
-        "(ParseRequests wraps the connection in a fresh bufio.Reader per call, bytes buffered behind a GET are lost)",
+        "the command sessions of this stream do not pipeline: a GET is the last request of a write and the next write "
+        "follows its response (pipelined keep-alive sequences are exercised by C10 since /repo efca934)",
         "one source address per backend (source rotation belongs to C13)",
-        "http backends: command arguments are valid UTF-8 (json.Marshal replaces other bytes by U+FFFD) and the remote "
-        "site does not answer 'ERROR: broken pipe.' in output[3] (D-C15-2: lmd POSTs the batch up to three times)",
+        "http backends: command arguments are valid UTF-8 (json.Marshal replaces other bytes by U+FFFD); the remote "
+        "answer 'ERROR: broken pipe.' is generated (D-C15-2, re-POST of the batch, repaired by /repo 4f784aa)",
         "a socket backend that closes the connection without reading (Drop) is indistinguishable from one that accepted: "
         "lmd reports success and schedules the refresh, the batch is lost (at most once)",
     ],
